@@ -164,7 +164,7 @@ def line_order(trace, ts):
             if not ln:
                 continue
             key = f"line:{files[ln // 100000]}:{ln % 100000}"
-            kind = op[2] if op[2] in ("wait-timeout", "interrupt") else None
+            kind = op[2] if op[2] in ("wait-timeout", "interrupt", "qget-empty", "qget-timeout") else None
             if cur.get(t) != key:
                 cur[t] = key
                 if op[3] == 1:
@@ -426,4 +426,17 @@ def outcome_from(property_id, tier, results, functions, assumptions, bounds, out
         "exhaustive": False,
     }
     out.assumptions = assumptions + [f"outside: {x}" for x in outside]
+    return out
+
+
+def merge_into(out: Outcome, e2out: Outcome, key: str, assumption: str):
+    """add an E2 part to an E1 outcome (same property)"""
+    out.coverage[key] = e2out.coverage
+    out.violations += e2out.violations
+    out.harness_errors += e2out.harness_errors
+    out.inconclusive += e2out.inconclusive
+    out.coverage["obligations"] = out.coverage.get("obligations", 0) + e2out.coverage.get("obligations", 0)
+    out.coverage["discharged"] = out.coverage.get("discharged", 0) + e2out.coverage.get("discharged", 0)
+    out.coverage["traces_validated_against_impl"] = e2out.coverage.get("traces_validated_against_impl", 0)
+    out.assumptions.append(assumption)
     return out
